@@ -308,7 +308,7 @@ func init() {
 		ID:      "C14",
 		Level:   "exploration",
 		Hostile: true,
-		Rule: "a contract at depth 1..3 performs CALL/CALLCODE/DELEGATECALL/STATICCALL to 0x64/0x65/0x66 with a generated payload on Istanbul/Berlin/London/Shanghai/Cancun; recording host callbacks observe exactly what the precompile hands to the host; expected interaction from strict reference decoders (models/abibytes with big-integer arithmetic for (bytes,bytes); address+key; 32-byte hash): well-formed payload -> exactly one callback with exactly those arguments, return data = host's answer, fee 5000, write recorded under the contract whose call reached the precompile (other call kinds may refuse); malformed/truncated/overflowing payload -> no callback, failure, all gas consumed; host error -> failure; pre-Berlin -> no callback. " +
+		Rule: "a contract at depth 1..3 performs CALL/CALLCODE/DELEGATECALL/STATICCALL to 0x64/0x65/0x66 with a generated payload on Istanbul/Berlin/London/Shanghai/Cancun/Prague-configured chains; recording host callbacks observe exactly what the precompile hands to the host; expected interaction from strict reference decoders (models/abibytes with big-integer arithmetic for (bytes,bytes); address+key; 32-byte hash): well-formed payload -> exactly one callback with exactly those arguments, return data = host's answer, fee 5000, write recorded under the contract whose call reached the precompile (other call kinds may refuse); malformed/truncated/overflowing payload -> no callback, failure, all gas consumed; host error -> failure; pre-Berlin -> no callback. " +
 			"payloads: lengths 0..400; canonical encodings with head and length words replaced by 0, 0x20, 0x40, 2^31..2^64-32, 2^64-1, 2^64, 2^64+0x40, 2^128+0x40, 2^255, 2^256-1 and len-relative values; truncations; distinct_nontrivial = distinct (precompile, call kind, payload class, outcome, depth) combinations",
 		Assumptions: []string{"non-canonical but in-bounds (bytes,bytes) encodings may be accepted or rejected; if accepted the arguments must be the decoded ones", "what the host callbacks receive is observed at the process-global callback hooks the harness installs"},
 		Cases: func(seed uint64, tier string) []Case {
@@ -338,7 +338,7 @@ func init() {
 }
 
 var c14Kinds = []byte{h.CALL, h.CALLCODE, h.DELEGATECALL, h.STATICCALL}
-var c14Forks = []h.Fork{h.Berlin, h.London, h.Shanghai, h.Cancun}
+var c14Forks = []h.Fork{h.Berlin, h.London, h.Shanghai, h.Cancun, h.Prague}
 
 func runC14(c Case, tier string) (res CaseResult) {
 	n := int64(0)
